@@ -336,7 +336,7 @@ def derivation_cases(draw, tier):
 @st.composite
 def chomsky_cases(draw, tier):
     spec = draw(nondegenerate_cfg(max_vars=4))
-    S0 = draw(st.sampled_from([x for x in ["T", "Z", "S", "X"] if x not in spec["V"]]))
+    S0 = draw(st.sampled_from([x for x in ["T", "Z", "S", "X", "Y", "W"] if x not in spec["V"]]))
     return {"cfg": spec, "start": S0, "n": draw(st.sampled_from([3, 4]))}
 
 
